@@ -670,6 +670,15 @@ def run(repo, res, tier):
     res.floor("SKIPS", n, 14)
     c11.dom_get_specializations(repo, res)  # unknown-shell / non-command / duplicate checks precede the target-shell filter
     common.run_traversals(repo, res, only={"check::do_check_subword_spaces", "check::do_get_nonterm_refs", "check::expr_get_head", "check::expr_get_tail"}, rp=False)
+    # the checks look at what the earlier passes hand them: `Adjacent literals` compares the LAST leaf of the left neighbour with the
+    # FIRST of the right one (ENDS, shared with C13); `Conflicting descriptions` sees a description only if the passes before the
+    # automaton keep it on its literal (RP of the two rebuilding passes, shared with C02); and every kind of item answers the level
+    # question the table builders ask (FIELDCOVER, shared with C02 / C06)
+    from . import c13 as _c13
+    _c13.ends_rule(repo, res)
+    common.run_traversals(repo, res, only={"check::do_propagate_fallback_levels", "check::do_distribute_descriptions"}, flows=c02.flows_table())
+    from vlib import rules_fieldcover as FC
+    FC.fieldcover(repo, res, "dfa::Inp::get_fallback_level", "Inp", "fallback_level", "value")
     res.floor("GUARD", res.count("GUARD"), 6)
     res.floor("HANDLER", res.count("HANDLER"), 19)
     res.floor("MPT", res.count("MPT"), 11)
